@@ -522,7 +522,7 @@ func TestVerif_C29(t *testing.T) {
 	vx.Run(t, "C29", func(c *vx.Ctx) {
 		bounds := vx.Pick(c, []int{2}, []int{3, -1})
 		c.Rule("every schedule with at most B preemptions (quick B=2; thorough: B=3, then unbounded, the largest completed bound per program is recorded) of each small thread program over the instrumented quic gate, quic queue and internal/gate.Gate; a scheduling point precedes every channel operation/select/context operation, a select with several ready arms is an explicit choice; evaluations = complete executions; distinct outcomes = distinct terminal observations per program")
-		c.Assume("interleavings are at synchronisation-operation granularity; plain memory accesses between two operations are atomic (data races are looked for by the package's own -race tests, not here)")
+		c.Assume("interleavings are at synchronisation-operation granularity; plain memory accesses between two operations are atomic (unsynchronised accesses are looked for separately: in the thorough tier the same thread programs run free-running on real goroutines/channels in a -race build, and a data race whose two accesses are both in the instrumented source is reported; that pass samples schedules)")
 		c.Assume("send on unbuffered channels is not modelled (the instrumented files never do it)")
 		progs := append(gatePrograms(!c.Quick()), queuePrograms(!c.Quick())...)
 		c.Note("programs", len(progs))
